@@ -16,6 +16,8 @@ os.chdir(work)
 import boto3  # noqa: E402
 
 PUTS = []
+GETS = []
+PRE_CSV = {}
 
 
 class FakeS3:
@@ -24,7 +26,13 @@ class FakeS3:
         return {"ok": True}
 
     def get_object(self, **kw):
-        raise RuntimeError("no reads expected: " + str(kw.get("Key")))
+        # the baseline may be read from remote storage (the production way of calling the client): served from memory
+        key = str(kw.get("Key"))
+        if PRE_CSV.get("csv") is not None and key.endswith(".csv") and "/data/" in key:
+            import io
+            GETS.append(key)
+            return {"Body": io.BytesIO(PRE_CSV["csv"].encode()), "LastModified": "verif"}
+        raise RuntimeError("no reads expected: " + key)
 
 
 boto3.client = lambda *a, **k: FakeS3()
@@ -51,20 +59,29 @@ rng = random.Random(cfg["seed"])
 e = exact_election(rng, cfg["n_reporting"], n_partial=3)
 if cfg.get("counties"):
     pass
+if cfg.get("pre_from_s3"):
+    PRE_CSV["csv"] = e.pre.to_csv(index=False)
 extra = {"save_output": cfg["save_output"]} if cfg["save_output"] is not None else {}
 outcome = "completed"
 clients = []
 try:
     cl = E.client_mod().ModelClient()
     for call in cfg["calls"]:
-        kw = dict(raw_config=e.config(), preprocessed_data=e.pre.copy(), pi_method=cfg["pi"], aggregates=call["aggregates"],
+        kw = dict(raw_config=e.config(), pi_method=cfg["pi"], aggregates=call["aggregates"],
                   model_parameters={"fit_margin_outlier_model": False, "fit_turnout_outlier_model": False, **cfg.get("params", {})},
                   features=cfg.get("features", []), fixed_effects={})
+        if not cfg.get("pre_from_s3"):
+            kw["preprocessed_data"] = e.pre.copy()
         if call["save_output"] is not None:
             kw["save_output"] = call["save_output"]
         PUTS.append({"marker": "call"})
         with np.errstate(all="ignore"):
-            cl.get_estimates(e.cur.copy(), E.ELECTION_ID, e.office, cfg["estimands"], cfg["alphas"], e.threshold, e.unit_type, **kw)
+            feed = e.cur.copy()
+            if cfg.get("feed") == "empty-frame":
+                feed = feed.iloc[0:0]                      # the call made before the first results arrive
+            elif cfg.get("feed") == "header-only":
+                feed = [list(feed.columns)]
+            cl.get_estimates(feed, E.ELECTION_ID, e.office, cfg["estimands"], cfg["alphas"], e.threshold, e.unit_type, **kw)
 except Exception as ex:
     outcome = type(ex).__name__
 files = []
@@ -73,5 +90,5 @@ for root, dirs, fs in os.walk(work):
         files.append(os.path.relpath(os.path.join(root, f), work))
 import shutil
 shutil.rmtree(work, ignore_errors=True)
-print(json.dumps({"puts": PUTS, "files": sorted(files), "outcome": outcome, "office": e.office, "unit_type": e.unit_type,
+print(json.dumps({"puts": PUTS, "gets": GETS, "files": sorted(files), "outcome": outcome, "office": e.office, "unit_type": e.unit_type,
                   "election_id": E.ELECTION_ID}))
